@@ -20,7 +20,7 @@
 (* into the real code; RingLookupTrace.tla checks results recorded from    *)
 (* the real code on larger rings against the same operators.               *)
 (***************************************************************************)
-EXTENDS RingTypes, Sequences
+EXTENDS RingTypes, Sequences, TLC
 
 Members(d)   == DOMAIN d
 Owners(d)    == {i \in DOMAIN d : d[i].toks # {}}
@@ -38,10 +38,12 @@ Successor(M, d, k) == LET T == AllTokens(d)
 
 Reach(M, d, k) == [i \in Owners(d) |-> SetMin({Clockwise(M, k, t) : t \in d[i].toks})]
 
+\* (TLCEval is the identity; it only tells TLC to evaluate a function once instead of lazily)
 WalkOrder(M, d, k) ==
-    LET O == Owners(d)
-        r == Reach(M, d, k)
-    IN [n \in 1..Cardinality(O) |-> CHOOSE i \in O : Cardinality({j \in O : r[j] < r[i]}) = n - 1]
+    LET O    == Owners(d)
+        r    == TLCEval(Reach(M, d, k))
+        rank == TLCEval([i \in O |-> Cardinality({j \in O : r[j] < r[i]})])   \* token sets are disjoint: ranks are distinct
+    IN [n \in 1..Cardinality(O) |-> CHOOSE i \in O : rank[i] = n - 1]
 
 (***************************************************************************)
 (* The walked replica set: the first rf instances of the walk that do not  *)
@@ -56,10 +58,10 @@ Extends(d, op, i) == d[i].state \in op.extending
 \* Marks(..)[n] = <<instance n of the walk is not passed over, number of replicas proper before it>>
 Marks(d, op, za, ord) ==
     LET L    == Len(ord)
-        ext  == [n \in 1..L |-> Extends(d, op, ord[n])]
-        zn   == [n \in 1..L |-> d[ord[n]].zone]
+        ext  == TLCEval([n \in 1..L |-> Extends(d, op, ord[n])])
+        zn   == TLCEval([n \in 1..L |-> d[ord[n]].zone])
         \* not passed over: its zone has no earlier non-extending instance
-        elig == [n \in 1..L |-> ~za \/ zn[n] = 0 \/ \A m \in 1..(n-1) : ext[m] \/ zn[m] # zn[n]]
+        elig == TLCEval([n \in 1..L |-> ~za \/ zn[n] = 0 \/ \A m \in 1..(n-1) : ext[m] \/ zn[m] # zn[n]])
     IN [n \in 1..L |-> <<elig[n], Cardinality({m \in 1..(n-1) : elig[m] /\ ~ext[m]})>>]
 
 Pick(ord, marks, rf) == {ord[n] : n \in {n \in 1..Len(ord) : marks[n][1] /\ marks[n][2] < rf}}
@@ -87,7 +89,8 @@ Healthy(d, op, i) == d[i].state \in op.healthy /\ HeartbeatOK(d[i].hb)
 
 Majority(rf, walked) == (Max2(rf, walked) \div 2) + 1
 
-NoResult(e, W) == [ok |-> FALSE, err |-> e, ids |-> {}, maxErrors |-> 0, walked |-> W, plain |-> TRUE]
+\* (code is filled in by the case emitter of RingLookupMC)
+NoResult(e, W) == [ok |-> FALSE, err |-> e, ids |-> {}, maxErrors |-> 0, walked |-> W, plain |-> TRUE, code |-> 0]
 
 ResultOn(d, ord, op, rf, W) ==
     IF Len(ord) = 0 THEN NoResult("empty", {})
@@ -99,7 +102,7 @@ ResultOn(d, ord, op, rf, W) ==
          IN IF Cardinality(H) < maj
             THEN [NoResult("unhealthy", W) EXCEPT !.plain = FALSE]
             ELSE [ok |-> TRUE, err |-> "", ids |-> H, maxErrors |-> Cardinality(H) - maj,
-                  walked |-> W, plain |-> plain]
+                  walked |-> W, plain |-> plain, code |-> 0]
 
 LookupOn(d, ord, op, rf, za) == ResultOn(d, ord, op, rf, ReplicaWalk(d, op, rf, za, ord))
 
@@ -113,7 +116,7 @@ Lookup(M, d, k, op, rf, za) == LookupOn(d, WalkOrder(M, d, k), op, rf, za)
 (* zone-awareness min(#zones, rf) \div 2 zones may be missing, a zone with *)
 (* an unhealthy instance is dropped whole and uses up one of them.         *)
 (***************************************************************************)
-NoSet(e) == [ok |-> FALSE, err |-> e, ids |-> {}, maxErrors |-> 0, maxUnavailableZones |-> 0, za |-> FALSE]
+NoSet(e) == [ok |-> FALSE, err |-> e, ids |-> {}, maxErrors |-> 0, maxUnavailableZones |-> 0, za |-> FALSE, code |-> 0]
 
 ReplicationSetFor(d, op, rf, za) ==
     IF AllTokens(d) = {} THEN NoSet("empty")
@@ -124,11 +127,11 @@ ReplicationSetFor(d, op, rf, za) ==
             THEN LET tolerated == Min2(Cardinality(zones), rf) \div 2
                  IN IF Cardinality(failed) > tolerated THEN NoSet("unhealthy")
                     ELSE [ok |-> TRUE, err |-> "", ids |-> {i \in Hl : d[i].zone \notin failed},
-                          maxErrors |-> 0, maxUnavailableZones |-> tolerated - Cardinality(failed), za |-> TRUE]
+                          maxErrors |-> 0, maxUnavailableZones |-> tolerated - Cardinality(failed), za |-> TRUE, code |-> 0]
             ELSE LET required == Max2(Cardinality(DOMAIN d), rf) - (rf \div 2)
                  IN IF Cardinality(Hl) < required THEN NoSet("unhealthy")
                     ELSE [ok |-> TRUE, err |-> "", ids |-> Hl, maxErrors |-> Cardinality(Hl) - required,
-                          maxUnavailableZones |-> 0, za |-> FALSE]
+                          maxUnavailableZones |-> 0, za |-> FALSE, code |-> 0]
 
 ReadSet(d, rf, za) == ReplicationSetFor(d, Ops["Read"], rf, za)
 
@@ -173,15 +176,22 @@ ZoneOKOn(d, op, za, r) ==
              (i # j /\ d[i].zone # 0 /\ d[i].zone = d[j].zone) => (Extends(d, op, i) \/ Extends(d, op, j))
 
 (* C01: the walk starts at the owner of the first token strictly greater   *)
-(* than the key and never jumps over an instance it could have taken.      *)
-ClockwiseFirstOn(M, d, k, op, za, r) ==
-    LET reach == Reach(M, d, k)
-        W     == r.walked
-    IN AllTokens(d) # {} =>
-         /\ OwnerOf(d, Successor(M, d, k)) \in W
-         /\ \A i \in W, j \in Owners(d) \ W : reach[j] < reach[i] =>
-               /\ za /\ d[j].zone # 0
-               /\ \E c \in W : ~Extends(d, op, c) /\ d[c].zone = d[j].zone /\ reach[c] < reach[j]
+(* than the key, wrapping around to the smallest token ...                 *)
+WalkStartOK(M, d, k, ord) ==
+    LET T == AllTokens(d)
+    IN IF T = {} THEN Len(ord) = 0
+       ELSE LET above == {t \in T : t > k}
+                first == IF above # {} THEN SetMin(above) ELSE SetMin(T)
+            IN first = Successor(M, d, k) /\ ord[1] = OwnerOf(d, first)
+
+(* ... and never jumps over an instance it could have taken (reach = the   *)
+(* clockwise distances of RingLookup!Reach for the key).                   *)
+NoJumpOn(d, reach, op, za, r) ==
+    LET W == r.walked
+    IN /\ (DOMAIN reach # {} => \E i \in W : \A j \in DOMAIN reach : reach[i] <= reach[j])
+       /\ \A i \in W, j \in DOMAIN reach \ W : reach[j] < reach[i] =>
+             /\ za /\ d[j].zone # 0
+             /\ \E c \in W : ~Extends(d, op, c) /\ d[c].zone = d[j].zone /\ reach[c] < reach[j]
 
 (* C01: failure exactly below a majority of max(rf, |walked|); otherwise   *)
 (* exactly the healthy walked instances and exactly the slack above it.    *)
